@@ -160,6 +160,14 @@ def threeParts (q : Quirks) (keepLost : Bool) (p : Ex) (rows : List Row) : List 
     (!keepLost && !passes q p r && !passes q p.not r))
   (t, f, u)
 
+/-- the same for nodes (query level): a NULL cell is a missing property -/
+def threePartsNode (q : Quirks) (keepLost : Bool) (p : Ex) (rows : List Row) : List Row × List Row × List Row :=
+  let t := rows.filter (passesNode q p)
+  let f := rows.filter (passesNode q p.not)
+  let u := rows.filter (fun r => passesNode q p.isNull r ||
+    (!keepLost && !passesNode q p r && !passesNode q p.not r))
+  (t, f, u)
+
 def showParts (x : List Row × List Row × List Row) : String :=
   showPosFlat x.1 ++ "/" ++ showPosFlat x.2.1 ++ "/" ++ showPosFlat x.2.2
 
@@ -177,25 +185,43 @@ def quirkOffNames : List (String × Quirks × Bool) :=
    ("in-two-valued", ⟨true, true, true, false⟩, true),
    ("nonboolean-predicate-row-in-no-part", ⟨true, true, true, true⟩, false)]
 
-def tlpSig (p : Ex) (rows : List Row) (model spec : String) : String :=
+def tlpSigWith (parts : Quirks → Bool → Ex → List Row → List Row × List Row × List Row)
+    (p : Ex) (rows : List Row) (model spec : String) : String :=
   if model == spec then "-"
   else
-    let alone := quirkNames.filter (fun (_, q, k) => showParts (threeParts q k p rows) != spec)
+    let alone := quirkNames.filter (fun (_, q, k) => showParts (parts q k p rows) != spec)
     if !alone.isEmpty then joinWith "+" (alone.map (·.1))
     else
-      let off := quirkOffNames.filter (fun (_, q, k) => showParts (threeParts q k p rows) != model)
+      let off := quirkOffNames.filter (fun (_, q, k) => showParts (parts q k p rows) != model)
       if !off.isEmpty then joinWith "+" (off.map (·.1)) else "three-valued-logic"
+
+def tlpSig := tlpSigWith threeParts
 
 /-! ### chains -/
 
-/-- the chain, stage by stage; `none` when a sort stage meets rows on which its comparator is not
-a total preorder (the order `sort_by` produces is then unspecified) -/
+/-- the chain, stage by stage; `none` when a sort stage meets more than 20 rows on which its
+comparator is not a total preorder (the order `sort_by` produces is then unspecified) -/
 def runChain (cap : Nat) : List Stage → List (List Row) → Option (List (List Row))
   | [], cs => some cs
   | st :: rest, cs =>
     match st with
-    | .sort keys => if safeRows keys cs.flatten then runChain cap rest (st.pull cap cs) else none
+    | .sort keys =>
+      match sortRows keys cs.flatten with
+      | some sorted => runChain cap rest (rechunkAll cap sorted)
+      | none => none
     | _ => runChain cap rest (st.pull cap cs)
+
+/-- which kinds of values make the comparator of these rows fail to be a preorder -/
+def sortSig (keys : List SortKey) (rows : List Row) : String :=
+  let ks := keys.map (fun k => (colVals k.col rows).foldl (fun acc v => insertNat (vclass v) acc) [])
+  let has (f : List Nat → Bool) := ks.any f
+  let nan := has (fun c => c.contains 6 && (c.contains 5 || c.contains 3 || c.contains 4))
+  let big := has (fun c => c.contains 4 && c.contains 5)
+  let mixed := has (fun c => ((c.filter (fun x => x == 1 || x == 2)).length +
+    (if c.any (fun x => x ≥ 3) then 1 else 0)) > 1)
+  let names := (if mixed then ["sort-mixed-kinds-unordered"] else []) ++
+    (if nan then ["sort-nan-unordered"] else []) ++ (if big then ["sort-int-float-rounding"] else [])
+  if names.isEmpty then "sort-order" else joinWith "+" names
 
 def belowStages (pred : Option Ex) (skip limit : Option Nat) : List Stage :=
   (match pred with | some e => [Stage.filter e] | none => []) ++
@@ -235,26 +261,30 @@ def handle (args : List String) : Option Proto.Out :=
     let _ ← n.toNat?
     let keys ← parseKeys k
     let rows := withPositions (← parseTable t)
-    let cs := splitChunks (← parseSizes sz) rows
-    if safeRows keys rows then
-      let m := showPosFlat (sortOp cap keys cs).flatten
-      pure (mk m (showPosFlat (rows.mergeSort (rowLe keys))) "sort-order")
-    else pure { model := "comparator-not-a-preorder" }
+    let _ ← parseSizes sz       -- everything is materialized first: the chunking cannot matter
+    match sortRows keys rows with
+    | some sorted => pure (mk (showPosFlat sorted) (showPosFlat (rows.mergeSort (specRowLe keys))) (sortSig keys rows))
+    | none => pure { model := "comparator-not-a-preorder" }
   | ["sort.c", n, k, sz, t] => do
     let _ ← n.toNat?
     let keys ← parseKeys k
     let rows := withPositions (← parseTable t)
     let cs := splitChunks (← parseSizes sz) rows
-    if safeRows keys rows then pure { model := showPosChunks (sortOp cap keys cs) }
-    else pure { model := "comparator-not-a-preorder" }
-  | ["sort.m", n, k, sz, t] => do
+    match runChain cap [.sort keys] cs with
+    | some out => pure { model := showPosChunks out }
+    | none => pure { model := "comparator-not-a-preorder" }
+  | ["sort.m", hint, n, k, sz, t] => do
     let _ ← n.toNat?
-    let _ ← parseKeys k
+    let keys ← parseKeys k
     let rows := withPositions (← parseTable t)
     let _ ← parseSizes sz
-    -- whatever order comes out, it is a permutation of the input
-    let m := showPosFlat rows
-    pure (mk m m "sort-not-a-permutation")
+    -- whatever order comes out, it is a permutation of the input; where the comparator is not a
+    -- total preorder and there are more than 20 rows, `sort_by` may instead panic ("user-provided
+    -- comparison function does not correctly implement a total order"): accepted only there, and
+    -- only when the line says this input was seen to do so
+    let s := showPosFlat rows
+    let m := if hint == "p" && !orderedKeys keys rows && rows.length > 20 then "panic" else s
+    pure (mk m s "sort-panics-comparator-not-a-total-order")
   | ["count", n, c, p, sk, li, sz, t] => do
     let n ← n.toNat?
     let c ← c.toNat?
@@ -268,13 +298,54 @@ def handle (args : List String) : Option Proto.Out :=
     let r := s!"I{plain.length},I{(plain.filter (nonNullAt c)).length}"
     let m := showCounts (simpleAgg c below) ++ "/" ++ showCounts (hashAgg0 c below) ++ "/" ++ r
     pure (mk m (r ++ "/" ++ r ++ "/" ++ r) "hash-aggregate-no-row-on-empty-input")
+  | ["qtlp", n, p, t] => do
+    let n ← n.toNat?
+    let e ← parsePred n p
+    let rows := withPositions (← parseTable t)
+    let m := showParts (threePartsNode Quirks.code true e rows)
+    let s := showParts (threePartsNode Quirks.sql false e rows)
+    pure { model := m, spec := s, sig := tlpSigWith threePartsNode e rows m s }
+  | ["qord", k, sk, li, t] => do
+    -- the query text carries no null order: the planner always asks for NullsLast
+    let keys := (← parseKeys k).map (fun k => { k with nullsFirst := false })
+    let sk ← optNat sk
+    let li ← optNat li
+    let rows := withPositions (← parseTable t)
+    let win (l : List Row) : List Row :=
+      let l := match sk with | some s => l.drop s | none => l
+      match li with | some n => l.take n | none => l
+    match sortRows keys rows with
+    | some sorted =>
+      pure (mk (showPosFlat (win sorted)) (showPosFlat (win (rows.mergeSort (specRowLe keys)))) (sortSig keys rows))
+    | none => pure { model := "comparator-not-a-preorder" }
+  | ["qord.m", hint, k, t] => do
+    let keys := (← parseKeys k).map (fun k => { k with nullsFirst := false })
+    let rows := withPositions (← parseTable t)
+    let s := showPosFlat rows
+    let m := if hint == "p" && !orderedKeys keys rows && rows.length > 20 then "panic" else s
+    pure (mk m s "sort-panics-comparator-not-a-total-order")
+  | ["qcnt", n, c, p, t] => do
+    let n ← n.toNat?
+    let c ← c.toNat?
+    let pred ← if p == "-" then some none else (parsePred n p).map some
+    let rows := withPositions (← parseTable t)
+    let plain := match pred with
+      | some e => rows.filter (passesNode Quirks.code e)
+      | none => rows
+    let r := s!"I{plain.length},I{(plain.filter (nonNullAt c)).length}/I{plain.length}"
+    pure (mk r r "count-differs-from-rows")
   | ["pipe.f", n, st, sz, t] => do
     let n ← n.toNat?
     let stages ← parseStages n st
     let rows ← parseTable t
     let cs := splitChunks (← parseSizes sz) rows
     match runChain cap stages cs with
-    | some out => pure (mk (showRowsFlat out.flatten) (showRowsFlat (specChain stages rows)) "chain-not-the-list-result")
+    | some out =>
+      let sortSigs := stages.filterMap (fun st => match st with
+        | .sort keys => if orderedKeys keys rows then none else some (sortSig keys rows)
+        | _ => none)
+      pure (mk (showRowsFlat out.flatten) (showRowsFlat (specChainT stages rows))
+        (if sortSigs.isEmpty then "chain-not-the-list-result" else joinWith "+" sortSigs.eraseDups))
     | none => pure { model := "comparator-not-a-preorder" }
   | ["pipe.c", n, st, sz, t] => do
     let n ← n.toNat?
